@@ -296,6 +296,8 @@ func shapes(W int) []*shape {
 	out = append(out, familyShapes()...)
 	out = append(out, sameClassShapes()...)
 	out = append(out, sameNamesShapes()...)
+	out = append(out, markerShapes()...)
+	out = append(out, inputShapes()...)
 	for _, sh := range out {
 		finishShape(sh)
 	}
@@ -370,7 +372,114 @@ const (
 	famTwice     = "family:same-element-extracted-twice"
 	famSameClass = "family:same-class-rules-one-ends-in-empty-symbol"
 	famSameNames = "family:same-node-names-whole-rule-vs-prefix"
+	famMarkers   = "family:state-markers-in-and-after-annotated-parts"
+	famInputs    = "family:second-input-with-node-names-of-its-own"
 )
+
+func famShape(g *extsem.Grammar, fam string) *shape {
+	c := g.Clone()
+	var lab []byte
+	for _, p := range c.TermSlots() {
+		lab = append(lab, *p)
+	}
+	return &shape{g: c, weight: 9, fixed: []string{string(lab)}, family: true, fam: fam}
+}
+
+// markerShapes: state markers (`.name`) occupy no stack slot and are no symbols: a marker after a
+// symbol that can be empty must not hide that tail from the fixWhitespace trimming, a marker
+// inside / at the start / at the end of an annotated part must not shift the part's symbol
+// positions, a part that holds nothing but a marker is an arrow over nothing.
+func markerShapes() []*shape {
+	tok := func(ch byte) *extsem.Expr { return &extsem.Expr{Kind: extsem.KTok, Ch: ch} }
+	ref := func(nt int) *extsem.Expr { return &extsem.Expr{Kind: extsem.KRef, NT: nt} }
+	mk := func(n string) *extsem.Expr { return &extsem.Expr{Kind: extsem.KMarker, Name: n} }
+	star := func(e *extsem.Expr) *extsem.Expr { return &extsem.Expr{Kind: extsem.KList, Sub: e} }
+	plus := func(e *extsem.Expr) *extsem.Expr { return &extsem.Expr{Kind: extsem.KList, Sub: e, Plus: true} }
+	ar := func() *extsem.Arrow { return &extsem.Arrow{} }
+	grp := func(a *extsem.Arrow, parts ...*extsem.Expr) *extsem.Expr {
+		return &extsem.Expr{Kind: extsem.KGroup, Alts: []*extsem.Alt{{Parts: parts, Arrow: a}}}
+	}
+	alt := func(a *extsem.Arrow, parts ...*extsem.Expr) *extsem.Alt { return &extsem.Alt{Parts: parts, Arrow: a} }
+	nt := func(name string, def *extsem.Arrow, alts ...*extsem.Alt) *extsem.Nonterm {
+		return &extsem.Nonterm{Name: name, Default: def, Alts: alts}
+	}
+	gr := func(nts ...*extsem.Nonterm) *extsem.Grammar { return &extsem.Grammar{NTs: nts} }
+	zb := func() *extsem.Nonterm { return nt("Z", nil, alt(nil, tok('b')), alt(nil)) } // Z : b | %empty
+	yb := func() *extsem.Nonterm { return nt("Y", nil, alt(nil, tok('b')), alt(nil)) } // Y : b | %empty
+	gs := []*extsem.Grammar{
+		// S -> N1 : Y c ;  Y -> N2 : a Z .m1 ;  Z : b | %empty ;
+		gr(nt("S", ar(), alt(nil, ref(1), tok('c'))), nt("Y", ar(), alt(nil, tok('a'), ref(2), mk("m1"))), zb()),
+		// S : (a Y .m1 -> N1) c ;  Y : b | %empty ;         (marker closes an annotated inner part)
+		gr(nt("S", nil, alt(nil, grp(ar(), tok('a'), ref(1), mk("m1")), tok('c'))), yb()),
+		// S : a Y .m1 -> N1 ;  Y : b | %empty ;              (rule-level arrow, tail at the end of input)
+		gr(nt("S", nil, alt(ar(), tok('a'), ref(1), mk("m1"))), yb()),
+		// S -> N1 : Y c ;  Y -> N2 : a b* .m1 ;              (the tail is a list)
+		gr(nt("S", ar(), alt(nil, ref(1), tok('c'))), nt("Y", ar(), alt(nil, tok('a'), star(tok('b')), mk("m1")))),
+		// S -> N1 : Y c ;  Y -> N2 : a Z .m1 .m2 ;  Z : b | %empty ;   (two markers)
+		gr(nt("S", ar(), alt(nil, ref(1), tok('c'))), nt("Y", ar(), alt(nil, tok('a'), ref(2), mk("m1"), mk("m2"))), zb()),
+		// S -> N1 : Y c ;  Y -> N2 : a .m1 Z ;  Z : b | %empty ;       (marker before the tail)
+		gr(nt("S", ar(), alt(nil, ref(1), tok('c'))), nt("Y", ar(), alt(nil, tok('a'), mk("m1"), ref(2))), zb()),
+		// S : (a .m1 b -> N1) c ;                                       (marker inside a part)
+		gr(nt("S", nil, alt(nil, grp(ar(), tok('a'), mk("m1"), tok('b')), tok('c')))),
+		// S : a (.m1 b -> N1) c ;                                       (marker opens a part)
+		gr(nt("S", nil, alt(nil, tok('a'), grp(ar(), mk("m1"), tok('b')), tok('c')))),
+		// S : a .m1 (b -> N1) .m2 c -> N2 ;                             (markers around a part)
+		gr(nt("S", nil, alt(ar(), tok('a'), mk("m1"), grp(ar(), tok('b')), mk("m2"), tok('c')))),
+		// S : (.m1 -> N1) a ;                                           (a part that is only a marker)
+		gr(nt("S", nil, alt(nil, grp(ar(), mk("m1")), tok('a')))),
+		// S : (a .m1 -> N1)+ b ;                                        (marker in a list element)
+		gr(nt("S", nil, alt(nil, plus(grp(ar(), tok('a'), mk("m1"))), tok('b')))),
+		// S : ((a Y .m1 -> N1) -> N2) c ;  Y : b | %empty ;
+		gr(nt("S", nil, alt(nil, grp(ar(), grp(ar(), tok('a'), ref(1), mk("m1"))), tok('c'))), yb()),
+	}
+	var out []*shape
+	for _, g := range gs {
+		out = append(out, famShape(g, famMarkers))
+	}
+	return out
+}
+
+// inputShapes: more than one %input, inputs declared no-eoi, node names that occur only below
+// one of the inputs; every input is parsed through its own Parse function. For a no-eoi input
+// only exact sentences are fed (what follows a sentence is outside this property).
+func inputShapes() []*shape {
+	tok := func(ch byte) *extsem.Expr { return &extsem.Expr{Kind: extsem.KTok, Ch: ch} }
+	ref := func(nt int) *extsem.Expr { return &extsem.Expr{Kind: extsem.KRef, NT: nt} }
+	opt := func(e *extsem.Expr) *extsem.Expr { return &extsem.Expr{Kind: extsem.KOpt, Sub: e} }
+	plus := func(e *extsem.Expr) *extsem.Expr { return &extsem.Expr{Kind: extsem.KList, Sub: e, Plus: true} }
+	ar := func() *extsem.Arrow { return &extsem.Arrow{} }
+	grp := func(a *extsem.Arrow, parts ...*extsem.Expr) *extsem.Expr {
+		return &extsem.Expr{Kind: extsem.KGroup, Alts: []*extsem.Alt{{Parts: parts, Arrow: a}}}
+	}
+	alt := func(a *extsem.Arrow, parts ...*extsem.Expr) *extsem.Alt { return &extsem.Alt{Parts: parts, Arrow: a} }
+	nt := func(name string, def *extsem.Arrow, alts ...*extsem.Alt) *extsem.Nonterm {
+		return &extsem.Nonterm{Name: name, Default: def, Alts: alts}
+	}
+	e := func(nt int, noeoi bool) extsem.Entry { return extsem.Entry{NT: nt, NoEoi: noeoi} }
+	gs := []*extsem.Grammar{
+		// %input S, Y no-eoi;  S -> N1 : a ;  Y -> N2 : b ;
+		{Entries: []extsem.Entry{e(0, false), e(1, true)}, NTs: []*extsem.Nonterm{nt("S", ar(), alt(nil, tok('a'))), nt("Y", ar(), alt(nil, tok('b')))}},
+		// %input S, Y no-eoi;  S -> N1 : a ;  Y : (b -> N2) c -> N3 ;
+		{Entries: []extsem.Entry{e(0, false), e(1, true)}, NTs: []*extsem.Nonterm{nt("S", ar(), alt(nil, tok('a'))), nt("Y", nil, alt(ar(), grp(ar(), tok('b')), tok('c')))}},
+		// %input S, Y;  S -> N1 : a ;  Y : (b -> N2)+ -> N3 ;           (two ordinary inputs)
+		{Entries: []extsem.Entry{e(0, false), e(1, false)}, NTs: []*extsem.Nonterm{nt("S", ar(), alt(nil, tok('a'))), nt("Y", nil, alt(ar(), plus(grp(ar(), tok('b')))))}},
+		// %input S, Y no-eoi;  S : a Y -> N1 ;  Y : b -> N2 ;           (Y below both inputs)
+		{Entries: []extsem.Entry{e(0, false), e(1, true)}, NTs: []*extsem.Nonterm{nt("S", nil, alt(ar(), tok('a'), ref(1))), nt("Y", nil, alt(ar(), tok('b')))}},
+		// %input S, Y no-eoi, Z;  S -> N1 : a ;  Y -> N2 : b ;  Z -> N3 : c (c -> N4)? ;
+		{Entries: []extsem.Entry{e(0, false), e(1, true), e(2, false)}, NTs: []*extsem.Nonterm{nt("S", ar(), alt(nil, tok('a'))), nt("Y", ar(), alt(nil, tok('b'))), nt("Z", ar(), alt(nil, tok('c'), opt(grp(ar(), tok('c')))))}},
+		// %input S no-eoi, Y;  S -> N1 : a ;  Y : b (%empty -> N2) c ;  (the no-eoi input comes first)
+		{Entries: []extsem.Entry{e(0, true), e(1, false)}, NTs: []*extsem.Nonterm{nt("S", ar(), alt(nil, tok('a'))), nt("Y", nil, alt(nil, tok('b'), grp(ar()), tok('c')))}},
+		// %input S no-eoi;  S : (a -> N1) b -> N2 ;                      (the only input is no-eoi)
+		{Entries: []extsem.Entry{e(0, true)}, NTs: []*extsem.Nonterm{nt("S", nil, alt(ar(), grp(ar(), tok('a')), tok('b')))}},
+		// %input S, Y no-eoi;  S -> N1 : a ;  Y -> N2 : Z c ;  Z : (b -> N3) b ;   (names two levels below the no-eoi input)
+		{Entries: []extsem.Entry{e(0, false), e(1, true)}, NTs: []*extsem.Nonterm{nt("S", ar(), alt(nil, tok('a'))), nt("Y", ar(), alt(nil, ref(2), tok('c'))), nt("Z", nil, alt(nil, grp(ar(), tok('b')), tok('b')))}},
+	}
+	var out []*shape
+	for _, g := range gs {
+		out = append(out, famShape(g, famInputs))
+	}
+	return out
+}
 
 // sameNamesShapes: the same node names used in two rules of one grammar, once as arrows that cover
 // the whole rule (the outermost one becomes the rule's own node type) and once as the very same
